@@ -178,10 +178,14 @@ def run(ck):
         # the gate is the circuit's: get_circuit().is_ready() or self._dest.circuit.is_ready()
         for g in gate_tests:
             rcv = [recv(c) for c in node_calls(g, 'is_ready')]
-            ok = all(r in ('simulator.get_circuit()', 'self._dest.circuit', 'get_circuit()')
-                     for r in rcv) and bool(rcv)
+            # ... and it is the circuit of the destination: the *current* circuit (get_circuit()) is another
+            # one after reset_circuit(), and a kept ExtEvent would enter the finished circuit as soon as the
+            # new one runs (defect F18)
+            ok = all(r in ('self._dest.circuit', 'self.dest.circuit') for r in rcv) and bool(rcv)
             ck.ob(R1, f"{send.fid} :: gate receiver", ok,
-                  f"is_ready() is asked of {rcv}", send, g.ast)
+                  f"is_ready() is asked of {rcv}" + ('' if ok else
+                  ": not the destination's circuit - after reset_circuit() an ExtEvent object kept by the "
+                  "application delivers into the finished circuit whenever the new circuit is running"), send, g.ast)
         # no effect before the gate
         effectful = nodes_where(cfg, lambda n: n.kind == 'stmt' and (
             any(True for _ in subscript_writes(n.ast)) or
